@@ -100,6 +100,24 @@ def gen(rng, tier):
             {"op": rng.choice(["none", "gc", "reopen"])},
             {"op": "update", "feats": again, "strategy": "merge", "form": rng.choice(["path", "list", "gen", "string"]), "stale_writer": True},
         ] + tail
+    elif rng.random() < 0.3:
+        # the primary '<key>' feature is deleted ('<key>_n' entries stay), the key is used again, and then lines that agree with
+        # the surviving '<key>_n' entries arrive under 'merge': they belong into those entries
+        key = rng.choice(["a", "a", "b", "c"])
+        idk = "exon_id" if gtf else "ID"
+        earlier = [f for st in steps if st.get("feats") for f in st["feats"] if any(k == idk and v == [key] for k, v in f["attrs"])]
+        again = [mf(f["cols"], [kv for kv in f["attrs"] if kv[0] != "Name"] + [["Name", rng.sample(["n1", "n4", "n5"], rng.choice([1, 2]))]], f["extra"])
+                 for f in earlier[:4]]
+        if again:
+            case["delete_readd"] = True
+            tail = [st for st in steps[-1:] if st["op"] in ("reopen", "restart", "none")]
+            steps[len(steps) - len(tail):] = [
+                {"op": "delete", "ids": [key]},
+                {"op": rng.choice(["none", "reopen", "gc"] if not memory else ["none", "gc", "gc"])},
+                {"op": "update", "feats": [feat(rng, gtf) for _ in range(rng.randint(1, 3))], "strategy": rng.choice(["merge", "create_unique"]),
+                 "form": rng.choice(["path", "list", "gen"])},
+                {"op": "update", "feats": again, "strategy": "merge", "form": rng.choice(["path", "list", "gen", "string"])},
+            ] + tail
     return case
 
 
@@ -168,6 +186,17 @@ def run(case):
                 call(node, {"op": "open", "h": "h", "db": "a.db"})
                 if not compare("after restart (fresh process)"):
                     hard = True
+                continue
+            if k == "delete" and alive:
+                model.delete([i for i in st["ids"] if i in model.feats])
+                r = call(node, {"op": "delete", "h": "h", "ids": st["ids"], "form": "strs", "kw": {"make_backup": False}})
+                if not r["ok"]:
+                    V.append(viol("C05.outcome", "delete(%r) raised %s: %s" % (st["ids"], r["exc"], r["msg"]), kind="unexpected_exception", exc=r["exc"]))
+                    break
+                if any(d in model.feats for d in model.dups.get(st["ids"][0], [])):
+                    probes["primary_key_deleted_while_its_numbered_entries_stay"] = 1
+                if not compare("after delete %r" % (st["ids"],)):
+                    break
                 continue
             if k not in ("create", "update"):
                 continue
